@@ -995,16 +995,36 @@ func cmdDriveFault(args []string) error {
 				tr, idx := sc.Rule()
 				want := fmt.Sprintf("%s@%d", tr.Text(), idx)
 				var got []string
-				pv := safeCall(func() {
-					if rr, _ := st.RetrieveRule(idx); rr != nil {
-						got = []string{fmt.Sprintf("%s@%d", rr.Text(), idx)}
-					}
-				})
+				type ret struct {
+					got []string
+					pv  string
+				}
+				done := make(chan ret, 1)
+				go func() {
+					var g []string
+					p := safeCall(func() {
+						if rr, _ := st.RetrieveRule(idx); rr != nil {
+							g = []string{fmt.Sprintf("%s@%d", rr.Text(), idx)}
+						}
+					})
+					done <- ret{g, p}
+				}()
+				var pv string
+				select {
+				case r := <-done:
+					got, pv = r.got, r.pv
+				case <-time.After(8 * time.Second):
+					// a retrieval that does not come back (a lock left behind by a failed one) is as bad as a crash
+					pv, hung = "the retrieval did not return within 8 s (deadlock)", true
+				}
 				if pv != "" {
 					got = []string{"PANIC"}
 				}
 				out.write(map[string]any{"ev": "query", "q": fmt.Sprintf("retrieve|%d", idx), "got": nz(got), "gotnet": []string{}, "twin": []string{want}, "twinnet": []string{},
 					"ref": []string{want}, "kind": pv, "h": hnum})
+				if hung {
+					break
+				}
 			}
 		}
 		cleanup()
